@@ -30,7 +30,7 @@ ASSUMPTIONS = ['nutils.element Reference.child_transforms/edge_transforms/child_
                'states that would violate the documented precondition of Transforms (no chain is a head of another) are not constructed',
                'locate: geometries are affine or mildly nonlinear with Jacobian singular values in [0.5, 2.5]; a target counts as certainly-inside when it is >=0.05 (element coordinates) away from every element boundary',
                'maxprocs=2 uses nutils.parallel fork; the located sample must satisfy the same oracle as for maxprocs=1']
-BUDGET_S = {'quick': 420, 'thorough': 3000}
+BUDGET_S = {'quick': 1500, 'thorough': 6000}
 
 
 def shards(tier, seed):
